@@ -216,12 +216,16 @@ def expected_structure(page):
                    "ctest": "function", "test": "function", "section": "function", "class": "py:class"}[k]
         words = [uniq(l["w"], j) for l in e["doc"] if l["w"] and not l["w"].startswith(("..", ":", "*")) and not l["w"].endswith("::")]
         kids = []
+        kidwords = []
+        wordsof = lambda doc: [uniq(l["w"], j) for l in doc if l["w"] and not l["w"].startswith(("..", ":", "*")) and not l["w"].endswith("::")]
         if k == "class":
             for m in e["ctors"] + e["members"]:
                 kids.append(("py:method", m["name"]))
+                kidwords.append(wordsof(m["doc"]) + (list(m["params"][:1]) if m["ptypes"] and m["params"] else []))
             for a in e["attrs"]:
                 kids.append(("py:attribute", a["name"]))
-        out.append((dirname, name, words, kids))
+                kidwords.append(wordsof(a["doc"]))
+        out.append((dirname, name, words, kids, kidwords))
     return out
 
 
@@ -248,7 +252,7 @@ def one(beh, n):
     if len(entries) != len(exp) or entries[0]["dir"] != "module":
         return case, [x[:2] for x in exp], [(e["dir"], e["arg"]) for e in entries], "top-level directives are not module + one per entry", drift
     for e, x in zip(entries[1:], exp[1:]):
-        dirname, name, words, kids = x
+        dirname, name, words, kids, kidwords = x
         if e["dir"] != dirname or not e["arg"].startswith(name):
             return case, x[:2], (e["dir"], e["arg"]), "entry directive mismatch", drift
         for w in words:
@@ -259,6 +263,11 @@ def one(beh, n):
         got_kids = [(c["dir"], c["arg"].split("(")[0]) for c in e["kids"] if c["dir"] in ("py:method", "py:attribute")]
         if got_kids != kids:
             return case, kids, got_kids, "class members are not nested inside their class directive", drift
+        members = [c for c in e["kids"] if c["dir"] in ("py:method", "py:attribute")]
+        for c, ws in zip(members, kidwords):
+            for w in ws:
+                if w not in c["text"]:
+                    return case, w, c["text"][:200], "a member's documentation text or fields are not nested in the member's own directive", drift
     return None, None, None, None, drift
 
 
